@@ -13,7 +13,7 @@ EXPLANATION = (
     'only from the loaded archive or an empty map; (R4) in reconcile the base lookup is guarded by trust_base and is the constant None '
     'otherwise, and that value is what reconcile_path receives; (R5) the decision DAG of reconcile_path never yields DeleteA/DeleteB '
     'when base is None (C18 engine); (R6) remove_file in the bisync graph occurs only on the DeleteA/DeleteB arms; (R7) every root-dependent value hashed into the pair key passes through canonicalize (the key names directories, not spellings). '
-    'R7 also: an archive is loaded (or, loaded early, reaches reconcile) only where both roots were scanned Ok or shown to exist - a root that does not exist is not canonicalized and the key would be the path as typed; R2/R3 accept readers inside the archive module that go through Archive::load with this run\'s pair hash, and None as a source of the loaded value. Not decided: behaviour of serde_json on malformed input (assumed to return Err).')
+    'R7 also: an archive is loaded (or, loaded early, reaches reconcile) only where both roots were scanned Ok or shown to exist - a root that does not exist is not canonicalized and the key would be the path as typed; R2/R3 accept readers inside the archive module that go through Archive::load with this run\'s pair hash, and None as a source of the loaded value. R1 reads load written as inspect(..).ok(): the accept points are the Ok(archive) values that reach .ok(). Not decided: behaviour of serde_json on malformed input (assumed to return Err).')
 ASSUMPTIONS = ['serde_json::from_slice returns Err for truncated / garbage / wrong-shape input',
                'std::fs::read returns Err for a missing file']
 
